@@ -50,6 +50,38 @@ pub fn nameok(args: &[String]) -> String {
                 _ => false,
             }
         }
+        // names in declarations: the attribute name of an attribute-list declaration (the attribute it supplies to <r/> must be
+        // there, alone, under exactly that name), the name of the document type
+        "decl-attr" | "doctype-name" => {
+            use xml_info::{DocumentTypeDeclaration, Document, Element, HasQName};
+            let text = if kind == "decl-attr" { format!("<!DOCTYPE r [<!ATTLIST r {} CDATA 'v'>]><r/>", s) } else { format!("<!DOCTYPE {}><r/>", s) };
+            let shown = |p: Option<&str>, l: &str| match p { Some(p) => format!("{}:{}", p, l), None => l.to_string() };
+            match xml_parser::document(&text) {
+                Ok(("", tree)) => match xml_info::XmlDocument::new(&tree) {
+                    Ok(doc) => {
+                        let d = doc.borrow();
+                        if kind == "decl-attr" {
+                            match d.document_element() {
+                                Ok(root) => {
+                                    let r = root.borrow();
+                                    let names: Vec<String> = r.namespace_attributes().iter().chain(r.attributes().iter())
+                                        .map(|a| { let a = a.borrow(); shown(a.prefix(), a.local_name()) }).collect();
+                                    names.len() == 1 && names[0] == s
+                                }
+                                Err(_) => false,
+                            }
+                        } else {
+                            match d.document_declaration() {
+                                Some(t) => { let t = t.borrow(); let _ = DocumentTypeDeclaration::children(&*t); shown(t.prefix(), t.local_name()) == s }
+                                None => false,
+                            }
+                        }
+                    }
+                    Err(_) => false,
+                },
+                _ => false,
+            }
+        }
         // the DOM factories: the name a node is created with has to be a name of its kind, all of it
         "dom-pi" | "dom-elem" | "dom-attr" | "dom-entref" => {
             use xml_dom::DocumentMut;
